@@ -104,7 +104,31 @@ class State:
         return self.eng.initial_heap(key)
 
     def seth(self, key, val):
+        cur = getattr(self.eng, 'cur', None)
+        if cur is not None and getattr(cur, 'heap_consts', False) and key[0] in ('len', 'elem', 'f'):
+            val = self.constify(val, '_'.join(str(x) for x in self.eng.hkey(key)[:2]).replace('|', '.'))
         self.heap[key] = val
+
+    def constify(self, val, tag, depth=0):
+        """Option heap_consts: a heap update Store(base, i, v) is replaced by a fresh array constant related to `base` by
+        axioms with triggers on both arrays.  Reads then have the same shape whether the index is ground or bound, which is what
+        E-matching needs for quantified invariants over nested containers."""
+        if not (z3.is_app(val) and val.decl().kind() == z3.Z3_OP_STORE) or depth > 3:
+            return val
+        base, idx, v = val.children()
+        base = self.constify(base, tag, depth + 1)
+        if z3.is_array(v):
+            v = self.constify(v, tag + '_in', depth + 1)
+        hc = z3.Const(fresh_name('Hc_' + tag), val.sort())
+        r = z3.Const(fresh_name('r'), idx.sort())
+        body = z3.Implies(r != idx, z3.Select(hc, r) == z3.Select(base, r))
+        for pat in (z3.Select(hc, r), z3.Select(base, r)):
+            try:
+                self.assume(z3.ForAll([r], body, patterns=[pat]))
+            except z3.Z3Exception:
+                self.assume(z3.ForAll([r], body))
+        self.assume(z3.Select(hc, idx) == v)
+        return hc
 
 
 class Out:
